@@ -26,7 +26,7 @@ func init() {
 				"consulted before the question-type gate, is keyed injectively by host, type, class and direction.",
 			NotCovered: "EQUALITY WITH THE SHA-256 SET MODEL (that Matches/Hashes return exactly the listed names' hashes) and THE PUBLIC-SUFFIX / FOUR-LABEL CUT of hashableSubdomains: " +
 				"hash and string computations outside static reach.",
-			Rules: map[string]string{"C11-R29": "NewAnswerTXT builds the record from the whole strings parameter: every matched hash is in the answer (or the call fails); none is silently cut off", "C11-R28": "the HTTP client that downloads the lists sets only Content-Type, X-Request-Id and User-Agent: it never sets Accept-Encoding itself, which would switch off the transport's decompression and put compressed bytes into the cache file and the hash storage", "C11-R27": "a cached block-page response is always re-targeted at the request that hits the cache (hashprefix clonedResult returns CloneForReq for a ResultModifiedResponse on every path): ID, question and flags are this client's, so the client does not discard the answer", "C11-R26": "cloned address records own their address bytes (shared with C12-R9): a later answer built in the pooled record does not overwrite the block-page answer held in the filter's cache", "C11-R25": "the pooled filtering context of mainmw is reset as a whole before use (shared with C01-R15): a rewritten request of an earlier, listed host is not applied to a later, unlisted one", "C11-R24": "a blocked answer for an HTTPS question is built under every blocking mode (constructor tables shared with C02-R6): a listed host is not passed as clean because the answer could not be built; R25: the pooled filtering context starts every request empty (shared with C01-R15)", "C11-R23": "the file-cache codec converts the parental switches (adult blocking, safe search) field to the field of the same name in both directions (shared with C14-R6)", "C11-R22": "rule-list keys from the index cannot name the cache file of a hash-prefix filter or another component (shared with C13-R18)", "C11-R21": "prefixesFromStr decodes the whole prefix string before it cuts a legacy eight-character prefix to four characters (a malformed tail is refused)", "C11-R20": "pre-service middleware: a TXT question of any class is handled by respondWithHashes alone, every other question by the DNS check", "C11-R18": "setSafeBrowsing and setParental install every selected safety filter under its own switch (tables shared with C02-R26)", "C11-R19": "agdnet.NormalizeDomain lower-cases every ASCII letter of the name that is hashed (shared with C10-R12)", "C11-R17": "builder: the TXT matcher is created after the filters have registered their storages", "C11-R16": "hash-prefix result cache: collision check on the stored host (shared with C12-R6)", "C11-RC": "class rules (error chains, shadowed results, character classes, crossed arguments, pool constructors, array pools, loop completeness, loop-carried buffers, replacing setters, complete clones, Grow arithmetic, pooled-buffer escape, sorted searches, fresh decode targets, per-iteration objects, whole-message copies, codec guards) over the packages this property rests on", "C11-R15": "list sources are read through readers that fail at the size limit, never through one that cuts silently (shared with C13-R7)", "C11-R14": "hash-prefix result cache stores clones and hands out clones (shared with C07-R4)", "C11-R1": "question-type gates", "C11-R2": "prefix length table", "C11-R3": "refuse, not forward", "C11-R4": "digest split agreement",
+			Rules: map[string]string{"C11-R30": "the pooled filter request is given this request's host, type and class on every path (shared with C07-R1): a listed host is not looked up under the question type of the previous request that used the object", "C11-R29": "NewAnswerTXT builds the record from the whole strings parameter: every matched hash is in the answer (or the call fails); none is silently cut off", "C11-R28": "the HTTP client that downloads the lists sets only Content-Type, X-Request-Id and User-Agent: it never sets Accept-Encoding itself, which would switch off the transport's decompression and put compressed bytes into the cache file and the hash storage", "C11-R27": "a cached block-page response is always re-targeted at the request that hits the cache (hashprefix clonedResult returns CloneForReq for a ResultModifiedResponse on every path): ID, question and flags are this client's, so the client does not discard the answer", "C11-R26": "cloned address records own their address bytes (shared with C12-R9): a later answer built in the pooled record does not overwrite the block-page answer held in the filter's cache", "C11-R25": "the pooled filtering context of mainmw is reset as a whole before use (shared with C01-R15): a rewritten request of an earlier, listed host is not applied to a later, unlisted one", "C11-R24": "a blocked answer for an HTTPS question is built under every blocking mode (constructor tables shared with C02-R6): a listed host is not passed as clean because the answer could not be built; R25: the pooled filtering context starts every request empty (shared with C01-R15)", "C11-R23": "the file-cache codec converts the parental switches (adult blocking, safe search) field to the field of the same name in both directions (shared with C14-R6)", "C11-R22": "rule-list keys from the index cannot name the cache file of a hash-prefix filter or another component (shared with C13-R18)", "C11-R21": "prefixesFromStr decodes the whole prefix string before it cuts a legacy eight-character prefix to four characters (a malformed tail is refused)", "C11-R20": "pre-service middleware: a TXT question of any class is handled by respondWithHashes alone, every other question by the DNS check", "C11-R18": "setSafeBrowsing and setParental install every selected safety filter under its own switch (tables shared with C02-R26)", "C11-R19": "agdnet.NormalizeDomain lower-cases every ASCII letter of the name that is hashed (shared with C10-R12)", "C11-R17": "builder: the TXT matcher is created after the filters have registered their storages", "C11-R16": "hash-prefix result cache: collision check on the stored host (shared with C12-R6)", "C11-RC": "class rules (error chains, shadowed results, character classes, crossed arguments, pool constructors, array pools, loop completeness, loop-carried buffers, replacing setters, complete clones, Grow arithmetic, pooled-buffer escape, sorted searches, fresh decode targets, per-iteration objects, whole-message copies, codec guards) over the packages this property rests on", "C11-R15": "list sources are read through readers that fail at the size limit, never through one that cuts silently (shared with C13-R7)", "C11-R14": "hash-prefix result cache stores clones and hands out clones (shared with C07-R4)", "C11-R1": "question-type gates", "C11-R2": "prefix length table", "C11-R3": "refuse, not forward", "C11-R4": "digest split agreement",
 				"C11-R13": "(*Storage).Matches compares the digest with every suffix of its bucket (a range loop left early only by the hit); binary searches need a sorted-data discipline (shared rule, also run over bindtodevice's index as the positive instance)",
 				"C11-R7":  "hashprefix.Filter.FilterRequest: cache first; then the type gate; then every candidate name (host and parents) is matched in order until the first hit; a hit is answered with the replacement built for this request and cached under this request's key",
 				"C11-R11": "builder wiring of the three hash-prefix filters: each filter's ID, cache file, hash storage, list URL and target field belong to the same list (two lists never share a cache file or a storage)",
@@ -37,6 +37,8 @@ func init() {
 }
 
 func runC11(c *an.Ctx) {
+	c.Floor("C11-R30", 3)
+	c.Borrow("C11-R30", runC07, func(o an.Obligation) bool { return o.Rule == "C07-R1" && strings.Contains(o.Key, "reqInfoToFltReq") })
 	c.Floor("C11-R29", 1)
 	c11TXTAllStrings(c, "C11-R29")
 	c.Floor("C11-R28", 3)
